@@ -438,6 +438,9 @@ func c03units(tier string) []mc.Unit {
 					if L >= 9999 && nl%4 != 0 && (nl < 18 || nl > 26) {
 						continue
 					}
+					if L >= 99999 && tier != "thorough" && nl != 12 && nl != 22 && nl != 23 && nl != 40 {
+						continue
+					}
 					name := ("NC_000913_thrLABC_operon_and_flanking_regions_x")[:nl]
 					var s poly.Sequence
 					s.Sequence = seq
